@@ -26,7 +26,7 @@
 EXTENDS Integers, Sequences, FiniteSets, TLC
 
 CONSTANTS Ids,          \* key ids explored (strings; overlapping prefixes on purpose)
-          Stamps,       \* creation times explored (integers; decimal string order differs from numeric order)
+          PosStamps, NegStamps, \* creation times explored: PosStamps and the negatives of NegStamps (integers; decimal string order differs from numeric order)
           Variants,     \* record contents explored: [key, rev, hasp, pid, pc]
           ReadSources,  \* subset of {"primary", "replica"}: where Load / LoadLatest may be answered from
           MaxOps        \* bound on the number of calls (design check and generation)
@@ -39,6 +39,9 @@ VARIABLES table,        \* the primary copy: [Ids \X Stamps -> record or NoRec]
 
 vars == <<table, replica, acked, last, nops>>
 
+\* creation times before the epoch are legal keys too; a TLC configuration file cannot spell a negative number, so they are
+\* given by magnitude (PosStamps, NegStamps are sets of naturals)
+Stamps == PosStamps \cup {0 - m : m \in NegStamps}
 Keys == Ids \X Stamps
 
 (* A stored / returned record.  key = EncryptedKey as lower-case hex, rev = Revoked, hasp = ParentKeyMeta present,      *)
